@@ -148,6 +148,9 @@ def np_mean(I, a, k):
     return ops.binop(I, "/", s, n)
 
 
+_CAST = None
+
+
 def reshaped_view(t: Tensor, shp):
     """numpy reshape / ravel: a VIEW of the same elements whenever the array is contiguous (one -1 is inferred); for a
     non-contiguous view numpy copies only when it must -- which of the two happens is not modelled"""
@@ -214,6 +217,15 @@ def tensor_getattr(I, t: Tensor, name):
         return Builtin("ndarray.reshape", reshape)
     if name == "ravel":
         return Builtin("ndarray.ravel", lambda I_, a, k: reshaped_view(t, (t.size,)))
+    if name == "astype":
+        def astype(I_, a, k):
+            dtype_kind, cast_tensor = _CAST
+            kind = dtype_kind(a[0] if a else k.get("dtype"))
+            if kind is None or set(k) - {"dtype", "copy"}:
+                raise Unsupported("ndarray.astype to this type")
+            r = cast_tensor(I_, t, kind)
+            return r.copy() if r is t and k.get("copy", True) is not False else r            # a new array unless copy=False
+        return Builtin("ndarray.astype", astype)
     if name == "flatten":
         return Builtin("ndarray.flatten", lambda I_, a, k: Tensor((t.size,), list(t.data), t.dtype))        # always a copy
     if name == "all":
@@ -512,6 +524,9 @@ def make_numpy(extra=None):
         if src == "float" and kind == "int" and all(isinstance(e, int) or (isinstance(e, Fraction) and e.denominator == 1) or (isinstance(e, Sym) and e.kind == "int") for e in t.data):
             return Tensor(t.shape, [int(e) if isinstance(e, Fraction) else e for e in t.data], "int")        # integral values: no truncation involved
         raise Unsupported(f"array conversion {src} -> {kind}")
+
+    global _CAST
+    _CAST = (dtype_kind, cast_tensor)
 
     def from_python(I, x):
         """array of a (nested) list / scalar with the element type numpy infers: all booleans -> bool, all integers (and
